@@ -24,7 +24,7 @@ func (r *zzByteReader) Read(p []byte) (int, error) {
 
 // ZZVerifC17Total: for every byte string up to the bound, ReadArguments
 // neither panics nor loops, returns args xor error, and stops reading at the
-// command's newline.
+// command's newline, so that the next call returns the next command.
 func ZZVerifC17Total() {
 	s := nd.BytesUpTo("s", nd.Param("N", 3))
 	r := &zzByteReader{b: s}
@@ -38,4 +38,242 @@ func ZZVerifC17Total() {
 		nd.Reach("C17/line-complete")
 	}
 	nd.Reach("C17/end")
+}
+
+func zzIsBlank(b byte) bool { return nd.Or(b == ' ', b == '\t') }
+
+// zzRefSplit is the reference field splitter: maximal runs of non-blank bytes.
+func zzRefSplit(s []byte) (want [][]byte) {
+	var cur []byte
+	in := false
+	for _, b := range s {
+		if zzIsBlank(b) {
+			if in {
+				want = append(want, cur)
+				cur = nil
+				in = false
+			}
+		} else {
+			cur = append(cur, b)
+			in = true
+		}
+	}
+	if in {
+		want = append(want, cur)
+	}
+	return want
+}
+
+func zzSameArgs(args []string, want [][]byte, label string) {
+	nd.Assert(len(args) == len(want), label+"-count")
+	if len(args) != len(want) {
+		return
+	}
+	for i := range want {
+		nd.Assert(args[i] == string(want[i]), label+"-bytes")
+	}
+}
+
+// ZZVerifC17Words: words separated by blanks come back unchanged,
+// byte-for-byte, for every byte value other than quote, backslash, '<' and
+// newline (non-ASCII bytes included).
+func ZZVerifC17Words() {
+	s := nd.BytesUpTo("s", nd.Param("N", 3))
+	ascii := true
+	for _, b := range s {
+		nd.Assume(nd.And(nd.And(b != '"', b != '\\'), nd.And(b != '<', b != '\n')))
+		if b >= 0x80 {
+			ascii = false
+		}
+	}
+	args, eof, err := ReadArguments(&zzByteReader{b: s})
+	nd.Assert(err == nil, "C17/words-no-error")
+	nd.Assert(eof, "C17/words-eof")
+	want := zzRefSplit(s)
+	if ascii {
+		zzSameArgs(args, want, "C17/words-ascii")
+	} else {
+		zzSameArgs(args, want, "C17/words-nonascii")
+		nd.Reach("C17/words-nonascii")
+	}
+	nd.Reach("C17/words-end")
+}
+
+// ZZVerifC17LeadingBackslash: a backslash outside quotes escapes the next
+// byte; an argument that starts with an escaped byte is a new argument (it is
+// neither glued to the previous one nor a crash).
+func ZZVerifC17LeadingBackslash() {
+	pre := nd.BytesUpTo("pre", nd.Param("P", 1))
+	for _, b := range pre {
+		nd.Assume(nd.And(nd.And(b != '"', b != '\\'), nd.And(b != '<', b != '\n')))
+		nd.Assume(nd.Not(zzIsBlank(b)))
+		nd.Assume(b < 0x80)
+	}
+	c := nd.Byte("c")
+	nd.Assume(nd.And(nd.And(c != '"', c != '\\'), nd.And(c != '<', c != '\n')))
+	nd.Assume(nd.Not(zzIsBlank(c)))
+	nd.Assume(c < 0x80)
+	sep := nd.Bool("sep")
+	var s []byte
+	s = append(s, pre...)
+	if sep {
+		s = append(s, ' ')
+	}
+	s = append(s, '\\', c)
+	args, _, err := ReadArguments(&zzByteReader{b: s})
+	nd.Assert(err == nil, "C17/bs-no-error")
+	if len(pre) == 0 {
+		nd.Assert(len(args) == 1 && args[0] == string([]byte{c}), "C17/bs-first-arg")
+	} else if sep {
+		nd.Assert(len(args) == 2 && args[0] == string(pre) && args[1] == string([]byte{c}), "C17/bs-new-arg")
+	} else {
+		nd.Assert(len(args) == 1 && args[0] == string(pre)+string([]byte{c}), "C17/bs-inside-word")
+	}
+	nd.Reach("C17/bs-end")
+}
+
+// zzQuote is the reference quoting function: "…" with \" for a quote.
+func zzQuote(a []byte) []byte {
+	out := []byte{'"'}
+	for _, b := range a {
+		if b == '"' {
+			out = append(out, '\\', '"')
+		} else {
+			out = append(out, b)
+		}
+	}
+	return append(out, '"')
+}
+
+// ZZVerifC17Quoted: arguments rendered by the reference quoting function and
+// joined by blanks are split back into the original arguments (blanks,
+// newlines, '<', '=' preserved; escaped quotes unescaped). Backslashes in the
+// content are outside the statement (no escape for them is defined).
+func ZZVerifC17Quoted() {
+	na := 1 + nd.Choose("nargs", nd.Param("A", 1))
+	l := nd.Param("L", 2)
+	var argv [][]byte
+	var s []byte
+	ascii := true
+	for i := 0; i < na; i++ {
+		a := nd.BytesUpTo("arg", l)
+		for _, b := range a {
+			nd.Assume(b != '\\')
+			if b >= 0x80 {
+				ascii = false
+			}
+		}
+		argv = append(argv, a)
+		if i > 0 {
+			s = append(s, ' ')
+		}
+		s = append(s, zzQuote(a)...)
+	}
+	tail := nd.Bool("newline")
+	if tail {
+		s = append(s, '\n', 'x')
+	}
+	r := &zzByteReader{b: s}
+	args, eof, err := ReadArguments(r)
+	nd.Assert(err == nil, "C17/quoted-no-error")
+	nd.Assert(eof == !tail, "C17/quoted-eof")
+	if tail {
+		nd.Assert(r.pos == len(s)-1, "C17/quoted-stops-at-newline")
+	}
+	if ascii {
+		zzSameArgs(args, argv, "C17/quoted-ascii")
+	} else {
+		zzSameArgs(args, argv, "C17/quoted-nonascii")
+	}
+	nd.Reach("C17/quoted-end")
+}
+
+func zzHasAt(s []byte, i int, sub []byte) bool {
+	if i+len(sub) > len(s) {
+		return false
+	}
+	ok := true
+	for j := range sub {
+		ok = nd.And(ok, s[i+j] == sub[j])
+	}
+	return ok
+}
+
+func zzTrimBlanks(b []byte) []byte {
+	lo, hi := 0, len(b)
+	for lo < hi && zzIsBlank(b[lo]) {
+		lo++
+	}
+	for hi > lo && zzIsBlank(b[hi-1]) {
+		hi--
+	}
+	return b[lo:hi]
+}
+
+// ZZVerifC17Heredoc: k=<<M\nBODY\nM yields the single argument k=trim(BODY)
+// for every body that does not contain the terminator line; a following
+// newline ends the command.
+func ZZVerifC17Heredoc() {
+	body := nd.BytesUpTo("body", nd.Param("B", 2))
+	marker := []byte("E")
+	if nd.Choose("marker", 2) == 1 {
+		marker = []byte("Eo")
+	}
+	term := append([]byte{'\n'}, marker...)
+	full := append(append([]byte{}, body...), term...)
+	// the terminator must not occur earlier than at the end
+	for i := 0; i < len(body); i++ {
+		nd.Assume(nd.Not(zzHasAt(full, i, term)))
+	}
+	ascii := true
+	for _, b := range body {
+		if b >= 0x80 {
+			ascii = false
+		}
+	}
+	var s []byte
+	s = append(s, 'k', '=', '<', '<')
+	s = append(s, marker...)
+	s = append(s, '\n')
+	s = append(s, full...)
+	s = append(s, '\n', 'y')
+	r := &zzByteReader{b: s}
+	args, eof, err := ReadArguments(r)
+	nd.Assert(err == nil, "C17/heredoc-no-error")
+	nd.Assert(!eof, "C17/heredoc-not-eof")
+	nd.Assert(r.pos == len(s)-1, "C17/heredoc-stops-at-newline")
+	want := append([]byte("k="), zzTrimBlanks(body)...)
+	if ascii {
+		zzSameArgs(args, [][]byte{want}, "C17/heredoc-ascii")
+	} else {
+		zzSameArgs(args, [][]byte{want}, "C17/heredoc-nonascii")
+	}
+	nd.Reach("C17/heredoc-end")
+}
+
+// ZZVerifC17Continuation: backslash-newline continues the line; the command
+// ends at the first unescaped newline and the next call returns the next
+// command.
+func ZZVerifC17Continuation() {
+	w1 := nd.Bytes("w1", 1)
+	w2 := nd.Bytes("w2", 1)
+	for _, b := range append(append([]byte{}, w1...), w2...) {
+		nd.Assume(nd.And(nd.And(b != '"', b != '\\'), nd.And(b != '<', b != '\n')))
+		nd.Assume(nd.Not(zzIsBlank(b)))
+		nd.Assume(b < 0x80)
+	}
+	var s []byte
+	s = append(s, w1...)
+	s = append(s, ' ', '\\', '\n')
+	s = append(s, w2...)
+	s = append(s, '\n')
+	s = append(s, 'n', 'x', 't')
+	r := &zzByteReader{b: s}
+	args, eof, err := ReadArguments(r)
+	nd.Assert(err == nil && !eof, "C17/cont-ok")
+	nd.Assert(len(args) == 2 && args[0] == string(w1) && args[1] == string(w2), "C17/cont-args")
+	args2, eof2, err2 := ReadArguments(r)
+	nd.Assert(err2 == nil && eof2, "C17/cont-next-ok")
+	nd.Assert(len(args2) == 1 && args2[0] == "nxt", "C17/cont-next-args")
+	nd.Reach("C17/cont-end")
 }
